@@ -3,6 +3,7 @@
   (with their resource and scope).
 -/
 import Stef.Proofs.OtlpSort
+import Stef.Proofs.OtlpCmp
 import Stef.Proofs.OtlpTraces
 
 namespace Stef.Otlp
@@ -21,15 +22,29 @@ def scopeItems (l : List ScopeSpans) : List (SKey × Span) := flatItems sKey (fu
 def triples (l : List ResourceSpans) : List (RKey × SKey × Span) :=
   (l.map fun r => (scopeItems r.scopes).map fun p => (rKey r, p)).flatten
 
-/-- the sorting mode only merges resources that a record cannot tell apart -/
-def ResMergeOK (t : Traces) : Prop :=
-  ∀ a ∈ t.rss, ∀ b ∈ t.rss, cmpResourceSpans a b = some 0 → rKey a = rKey b
+/-- the numbers in resource and scope attributes (the things the sorting mode compares) are 64-bit
+    patterns -/
+def ResourceSpans.keysB64 (r : ResourceSpans) : Bool := r.attrs.b64 && r.scopes.all (fun s => s.attrs.b64)
+def Traces.keysB64 (t : Traces) : Bool := t.rss.all ResourceSpans.keysB64
 
-/-- ... and scopes that a record cannot tell apart -/
-def allScopes (t : Traces) : List ScopeSpans := t.rss.flatMap fun r => r.scopes
+/-- CmpResourceSpans returns 0 only for resources a record cannot tell apart (since repo commit
+    679d5d5, which made it compare the dropped-attributes count) -/
+theorem cmpResourceSpans_faithful (x y : ResourceSpans) (hx : x.attrs.b64 = true) (hy : y.attrs.b64 = true)
+    (h : cmpResourceSpans x y = 0) : rKey x = rKey y := by
+  unfold cmpResourceSpans at h
+  have h1 := firstNonZero_eq_zero h
+  have h2 := firstNonZero_eq_zero h1.2
+  simp [rKey, strCompare_eq _ _ h1.1, cmpAttrs_eq _ _ hx hy h2.1, natCompare_eq h2.2]
 
-def ScopeMergeOK (t : Traces) : Prop :=
-  ∀ a ∈ allScopes t, ∀ b ∈ allScopes t, cmpScopeSpans a b = some 0 → sKey a = sKey b
+theorem cmpScopeSpans_faithful (x y : ScopeSpans) (hx : x.attrs.b64 = true) (hy : y.attrs.b64 = true)
+    (h : cmpScopeSpans x y = 0) : sKey x = sKey y := by
+  unfold cmpScopeSpans at h
+  have h1 := firstNonZero_eq_zero h
+  have h2 := firstNonZero_eq_zero h1.2
+  have h3 := firstNonZero_eq_zero h2.2
+  have h4 := firstNonZero_eq_zero h3.2
+  simp [sKey, strCompare_eq _ _ h1.1, strCompare_eq _ _ h2.1, strCompare_eq _ _ h3.1, cmpAttrs_eq _ _ hx hy h4.1,
+    natCompare_eq h4.2]
 
 theorem triples_via_flat (l : List ResourceSpans) :
     triples l = ((flatItems rKey (fun r => r.scopes) l).map fun p =>
@@ -42,18 +57,7 @@ theorem triples_via_flat (l : List ResourceSpans) :
     congr 1
     simp only [scopeItems, flatItems, List.map_map, List.map_flatten, Function.comp_def]
 
-theorem cmpResourceSpans_key (x x' y : ResourceSpans) (h : rKey x = rKey x') :
-    cmpResourceSpans x y = cmpResourceSpans x' y := by
-  simp only [rKey, Prod.mk.injEq] at h
-  simp [cmpResourceSpans, h.1, h.2.1]
-
-theorem cmpScopeSpans_key (x x' y : ScopeSpans) (h : sKey x = sKey x') :
-    cmpScopeSpans x y = cmpScopeSpans x' y := by
-  simp only [sKey, Prod.mk.injEq] at h
-  simp [cmpScopeSpans, h.1, h.2.1, h.2.2.1, h.2.2.2.1]
-
-theorem scopeItems_sortSpans (l : List ScopeSpans) :
-    (scopeItems (l.map fun s => { s with spans := sortSpans s.spans })).Perm (scopeItems l) := by
+theorem scopeItems_sortSpans (l : List ScopeSpans) : (scopeItems (l.map sortScopeSpans)).Perm (scopeItems l) := by
   induction l with
   | nil => exact List.Perm.refl _
   | cons s t ih =>
@@ -61,90 +65,56 @@ theorem scopeItems_sortSpans (l : List ScopeSpans) :
     apply List.Perm.append _ ih
     exact List.Perm.map _ (sortSpans_perm s.spans)
 
-theorem sortResourceScopes_spec (r r' : ResourceSpans)
-    (hok : ∀ a ∈ r.scopes, ∀ b ∈ r.scopes, cmpScopeSpans a b = some 0 → sKey a = sKey b)
-    (h : sortResourceScopes r = some r') :
-    rKey r' = rKey r ∧ (scopeItems r'.scopes).Perm (scopeItems r.scopes) := by
-  simp only [sortResourceScopes] at h
-  split at h
-  · simp at h
-  · rename_i ss1 h1
-    split at h
-    · simp at h
-    · rename_i ss2 h2
-      simp at h; subst h
-      have p1 := sortStable_perm _ _ _ h1
-      have e2 := mergeAdjacent_flat cmpScopeSpans mergeScopes sKey (fun s => s.spans)
-        (by intro x y; rfl) (by intro x y; rfl) cmpScopeSpans_key ss1 ss2
-        (by
-          intro a ha b hb
-          exact hok a (p1.mem_iff.mp ha) b (p1.mem_iff.mp hb))
-        h2
-      refine ⟨rfl, ?_⟩
-      refine (scopeItems_sortSpans ss2).trans ?_
-      show (flatItems sKey (fun s => s.spans) ss2).Perm _
-      rw [e2]
-      exact flatItems_perm _ _ p1
+theorem sortResourceScopes_spec (r : ResourceSpans) (hb : ∀ s ∈ r.scopes, s.attrs.b64 = true) :
+    rKey (sortResourceScopes r) = rKey r ∧ (scopeItems (sortResourceScopes r).scopes).Perm (scopeItems r.scopes) := by
+  have p1 := sortStable_perm cmpScopeSpans r.scopes
+  have e2 := mergeAdjacent_flat cmpScopeSpans mergeScopes sKey (fun s => s.spans) (fun s => s.attrs.b64 = true)
+    (by intro x y; rfl) (by intro x y; rfl) (by intro x y hx; exact hx)
+    (by intro x y hx hy h; exact cmpScopeSpans_faithful x y hx hy h)
+    (sortStable cmpScopeSpans r.scopes) (by intro y hy; exact hb y (p1.mem_iff.mp hy))
+  refine ⟨rfl, ?_⟩
+  refine (scopeItems_sortSpans _).trans ?_
+  show (flatItems sKey (fun s => s.spans) _).Perm _
+  rw [e2]
+  exact flatItems_perm _ _ p1
 
-theorem mapOpt_sortResourceScopes_triples : ∀ (l l' : List ResourceSpans),
-    (∀ r ∈ l, ∀ a ∈ r.scopes, ∀ b ∈ r.scopes, cmpScopeSpans a b = some 0 → sKey a = sKey b) →
-    mapOpt sortResourceScopes l = some l' → (triples l').Perm (triples l)
-  | [], l', _, h => by simp [mapOpt] at h; subst h; exact List.Perm.refl _
-  | r :: t, l', hok, h => by
-    simp only [mapOpt] at h
-    split at h
-    · simp at h
-    · rename_i r' hr
-      split at h
-      · simp at h
-      · rename_i t' ht
-        simp at h; subst h
-        have h1 := sortResourceScopes_spec r r' (hok r (by simp)) hr
-        have h2 := mapOpt_sortResourceScopes_triples t t' (fun x hx => hok x (by simp [hx])) ht
-        simp only [triples, List.map_cons, List.flatten_cons] at h2 ⊢
-        apply List.Perm.append _ h2
-        rw [h1.1]
-        exact List.Perm.map _ h1.2
+theorem map_sortResourceScopes_triples : ∀ (l : List ResourceSpans),
+    (∀ r ∈ l, ∀ s ∈ r.scopes, s.attrs.b64 = true) → (triples (l.map sortResourceScopes)).Perm (triples l)
+  | [], _ => List.Perm.refl _
+  | r :: t, hb => by
+    have h1 := sortResourceScopes_spec r (hb r (by simp))
+    have h2 := map_sortResourceScopes_triples t (fun x hx => hb x (by simp [hx]))
+    simp only [triples, List.map_cons, List.flatten_cons] at h2 ⊢
+    apply List.Perm.append _ h2
+    rw [h1.1]
+    exact List.Perm.map _ h1.2
 
 /-- the sorting mode writes the spans of a permutation of the input -/
-theorem sortTraces_triples (t t' : Traces) (hr : ResMergeOK t) (hs : ScopeMergeOK t)
-    (h : sortTraces t = some t') : (triples t'.rss).Perm (triples t.rss) := by
-  simp only [sortTraces] at h
-  split at h
-  · simp at h
-  · rename_i rs1 h1
-    split at h
-    · simp at h
-    · rename_i rs2 h2
-      split at h
-      · simp at h
-      · rename_i rs3 h3
-        simp at h; subst h
-        have p1 := sortStable_perm _ _ _ h1
-        have e2 := mergeAdjacent_flat cmpResourceSpans mergeResources rKey (fun r => r.scopes)
-          (by intro x y; rfl) (by intro x y; rfl) cmpResourceSpans_key rs1 rs2
-          (by intro a ha b hb; exact hr a (p1.mem_iff.mp ha) b (p1.mem_iff.mp hb)) h2
-        -- every scope of a merged resource is a scope of the input
-        have hq := mergeAdjacent_all cmpResourceSpans mergeResources
-          (fun r => ∀ s ∈ r.scopes, ∃ r0 ∈ t.rss, s ∈ r0.scopes)
-          (by
-            intro x y hx hy s hsm
-            simp only [mergeResources, List.mem_append] at hsm
-            cases hsm with
-            | inl h => exact hx s h
-            | inr h => exact hy s h)
-          rs1 rs2 (by intro y hy s hsm; exact ⟨y, p1.mem_iff.mp hy, hsm⟩) h2
-        have p3 := mapOpt_sortResourceScopes_triples rs2 rs3
-          (by
-            intro r hrm a ha b hb hc
-            obtain ⟨ra, hra, haa⟩ := hq r hrm a ha
-            obtain ⟨rb, hrb, hbb⟩ := hq r hrm b hb
-            exact hs a (List.mem_flatMap.mpr ⟨ra, hra, haa⟩) b (List.mem_flatMap.mpr ⟨rb, hrb, hbb⟩) hc)
-          h3
-        refine p3.trans ?_
-        rw [triples_via_flat rs2, e2, ← triples_via_flat rs1]
-        unfold triples
-        exact List.Perm.flatten (List.Perm.map _ p1)
+theorem sortTraces_triples (t : Traces) (hb : t.keysB64 = true) : (triples (sortTraces t).rss).Perm (triples t.rss) := by
+  have hall : ∀ r ∈ t.rss, r.attrs.b64 = true ∧ ∀ s ∈ r.scopes, s.attrs.b64 = true := by
+    intro r hr
+    have := (List.all_eq_true.mp hb) r hr
+    simp only [ResourceSpans.keysB64, Bool.and_eq_true, List.all_eq_true] at this
+    exact this
+  have p1 := sortStable_perm cmpResourceSpans t.rss
+  have e2 := mergeAdjacent_flat cmpResourceSpans mergeResources rKey (fun r => r.scopes) (fun r => r.attrs.b64 = true)
+    (by intro x y; rfl) (by intro x y; rfl) (by intro x y hx; exact hx)
+    (by intro x y hx hy h; exact cmpResourceSpans_faithful x y hx hy h)
+    (sortStable cmpResourceSpans t.rss) (by intro y hy; exact (hall y (p1.mem_iff.mp hy)).1)
+  have hq := mergeAdjacent_all cmpResourceSpans mergeResources (fun r => ∀ s ∈ r.scopes, s.attrs.b64 = true)
+    (by
+      intro x y hx hy s hsm
+      simp only [mergeResources, List.mem_append] at hsm
+      cases hsm with
+      | inl h => exact hx s h
+      | inr h => exact hy s h)
+    (sortStable cmpResourceSpans t.rss) (by intro y hy; exact (hall y (p1.mem_iff.mp hy)).2)
+  have p3 := map_sortResourceScopes_triples _ hq
+  simp only [sortTraces]
+  refine p3.trans ?_
+  rw [triples_via_flat, e2, ← triples_via_flat]
+  unfold triples
+  exact List.Perm.flatten (List.Perm.map _ p1)
 
 end Stef.Otlp
 
@@ -187,95 +157,33 @@ namespace Stef.Otlp
 
 /-! ### the sorting mode keeps the number of spans -/
 
-theorem mergeFrom_count {α β : Type} (cmp : α → α → Option Int) (merge : α → α → α) (items : α → List β)
-    (hitems : ∀ x y, items (merge x y) = items x ++ items y) :
-    ∀ (rest : List α) (cur : α) (out : List α), mergeFrom cmp merge cur rest = some out →
-      (out.map fun x => (items x).length).sum = ((cur :: rest).map fun x => (items x).length).sum
-  | [], cur, out, h => by simp [mergeFrom] at h; subst h; rfl
-  | y :: t, cur, out, h => by
-    simp only [mergeFrom] at h
-    split at h
-    · simp at h
-    · split at h
-      · rw [mergeFrom_count cmp merge items hitems t (merge cur y) out h]
-        simp [hitems]
-        omega
-      · split at h
-        · simp at h
-        · rename_i t' ht
-          simp at h; subst h
-          have ih := mergeFrom_count cmp merge items hitems t y t' ht
-          simp only [List.map_cons, List.sum_cons] at ih ⊢
-          omega
+theorem sortResourceScopes_count (r : ResourceSpans) :
+    spanCountScopes (sortResourceScopes r).scopes = spanCountScopes r.scopes := by
+  have p1 := sortStable_perm cmpScopeSpans r.scopes
+  have e2 := mergeAdjacent_count cmpScopeSpans mergeScopes (fun s => s.spans) (by intro x y; rfl)
+    (sortStable cmpScopeSpans r.scopes)
+  simp only [sortResourceScopes, spanCountScopes, List.map_map, Function.comp_def, sortScopeSpans]
+  have : ∀ (l : List ScopeSpans), (l.map fun s => (sortSpans s.spans).length) = l.map fun s => s.spans.length := by
+    intro l
+    apply List.map_congr_left
+    intro s _
+    exact (sortSpans_perm s.spans).length_eq
+  rw [this, e2]
+  exact (List.Perm.map _ p1).sum_nat
 
-theorem mergeAdjacent_count {α β : Type} (cmp : α → α → Option Int) (merge : α → α → α) (items : α → List β)
-    (hitems : ∀ x y, items (merge x y) = items x ++ items y) (l out : List α)
-    (h : mergeAdjacent cmp merge l = some out) :
-    (out.map fun x => (items x).length).sum = (l.map fun x => (items x).length).sum := by
-  cases l with
-  | nil => simp [mergeAdjacent] at h; subst h; rfl
-  | cons x t => exact mergeFrom_count cmp merge items hitems t x out h
-
-theorem sortResourceScopes_count (r r' : ResourceSpans) (h : sortResourceScopes r = some r') :
-    spanCountScopes r'.scopes = spanCountScopes r.scopes := by
-  simp only [sortResourceScopes] at h
-  split at h
-  · simp at h
-  · rename_i ss1 h1
-    split at h
-    · simp at h
-    · rename_i ss2 h2
-      simp at h; subst h
-      have p1 := sortStable_perm _ _ _ h1
-      have e2 := mergeAdjacent_count cmpScopeSpans mergeScopes (fun s => s.spans) (by intro x y; rfl) ss1 ss2 h2
-      simp only [spanCountScopes, List.map_map, Function.comp_def]
-      have : (ss2.map fun s => (sortSpans s.spans).length) = ss2.map fun s => s.spans.length := by
-        apply List.map_congr_left
-        intro s _
-        exact (sortSpans_perm s.spans).length_eq
-      rw [this, e2]
-      exact (List.Perm.map _ p1).sum_nat
-
-theorem mapOpt_sortResourceScopes_count : ∀ (l l' : List ResourceSpans), mapOpt sortResourceScopes l = some l' →
-    spanCountResources l' = spanCountResources l
-  | [], l', h => by simp [mapOpt] at h; subst h; rfl
-  | r :: t, l', h => by
-    simp only [mapOpt] at h
-    split at h
-    · simp at h
-    · rename_i r' hr
-      split at h
-      · simp at h
-      · rename_i t' ht
-        simp at h; subst h
-        have h1 := sortResourceScopes_count r r' hr
-        have h2 := mapOpt_sortResourceScopes_count t t' ht
-        simp only [spanCountResources, List.map_cons, List.sum_cons] at h2 ⊢
-        omega
-
-theorem sortTraces_count (t t' : Traces) (h : sortTraces t = some t') :
-    spanCountResources t'.rss = spanCountResources t.rss := by
-  simp only [sortTraces] at h
-  split at h
-  · simp at h
-  · rename_i rs1 h1
-    split at h
-    · simp at h
-    · rename_i rs2 h2
-      split at h
-      · simp at h
-      · rename_i rs3 h3
-        simp at h; subst h
-        have p1 := sortStable_perm _ _ _ h1
-        have e3 := mapOpt_sortResourceScopes_count rs2 rs3 h3
-        rw [e3]
-        have hm : ∀ (l : List ResourceSpans),
-            spanCountResources l = (l.map fun r => ((r.scopes.map fun s => s.spans).flatten).length).sum := by
-          intro l
-          simp only [spanCountResources, spanCountScopes, List.length_flatten, List.map_map, Function.comp_def]
-        have e2 := mergeAdjacent_count cmpResourceSpans mergeResources (fun r => (r.scopes.map fun s => s.spans).flatten)
-          (by intro x y; simp [mergeResources]) rs1 rs2 h2
-        rw [hm rs2, e2, hm t.rss]
-        exact (List.Perm.map _ p1).sum_nat
+theorem sortTraces_count (t : Traces) : spanCountResources (sortTraces t).rss = spanCountResources t.rss := by
+  have p1 := sortStable_perm cmpResourceSpans t.rss
+  have hm : ∀ (l : List ResourceSpans),
+      spanCountResources l = (l.map fun r => ((r.scopes.map fun s => s.spans).flatten).length).sum := by
+    intro l
+    simp only [spanCountResources, spanCountScopes, List.length_flatten, List.map_map, Function.comp_def]
+  have e2 := mergeAdjacent_count cmpResourceSpans mergeResources (fun r => (r.scopes.map fun s => s.spans).flatten)
+    (by intro x y; simp [mergeResources]) (sortStable cmpResourceSpans t.rss)
+  have e3 : ∀ (l : List ResourceSpans), spanCountResources (l.map sortResourceScopes) = spanCountResources l := by
+    intro l
+    simp only [spanCountResources, List.map_map, Function.comp_def, sortResourceScopes_count]
+  simp only [sortTraces]
+  rw [e3, hm, e2, hm t.rss]
+  exact (List.Perm.map _ p1).sum_nat
 
 end Stef.Otlp
